@@ -17,7 +17,8 @@ CLAUSE_OWNER = {"C05": "C05", "C11": "C11", "C12": "C12"}
 OLD_DESIGNS = [("Engine_olddrain.cfg", "NoProblemLost"), ("Engine_oldworkererr.cfg", "NoProblemLost"),
                ("Stateful_olddrain.cfg", "ProtocolOK"), ("Stateful_oldctrlc.cfg", "ProtocolOK"), ("Stateful_olddrainexec.cfg", "ProtocolOK"),
                ("Stateful_oldsetup.cfg", "AtMostOneScenarioAfterStop"), ("Stateful_oldworst.cfg", "ProtocolOK"),
-               ("Stateful_mf_error.cfg", "FailureLimit")]
+               ("Stateful_mf_error.cfg", "FailureLimit"),
+               ("Engine_live_noalive.cfg", "Termination"), ("Stateful_live_noalive.cfg", "Termination")]
 
 
 def _norm(d: dict) -> dict:
